@@ -548,6 +548,204 @@ class TreeMon(object):
                         want[1] if want[0] == 'ok' else 'ImportError', hname),
                     {'type': 'rel-history', 'history': minimal, 'sweep': hname})
 
+    # -- use of a name bound by an import statement -----------------------------------------
+    def _tree_file(self, fn):
+        """(root, rel) of a path inside the materialised tree, else None"""
+        if not isinstance(fn, str):
+            return None
+        for i, d in enumerate(self.dirs):
+            if fn.startswith(d + os.sep):
+                rel = fn[len(d) + 1:].replace(os.sep, '/')
+                if rel in self.tree['roots'][i]:
+                    return i, rel
+        return None
+
+    def _markers(self):
+        try:
+            return self._marks
+        except AttributeError:
+            import re
+            self._marks = {}
+            for i, files in enumerate(self.tree['roots']):
+                for rel, text in files.items():
+                    if rel.endswith('.py'):
+                        m = re.findall(r'^(MARK_\w+) = 1$', text, re.M)
+                        if m:
+                            self._marks[(i, rel)] = m[-1]
+            return self._marks
+
+    def expected_use(self, q, root, rel):
+        """-> ('file', path) the module/attribute the bound name stands for lives in that source file,
+              ('nothing', why) importlib raises / the name is not there,
+              ('skip', why) outside the domain or ambiguous."""
+        if q['kind'] == 'import':
+            target = q['module'] if q['alias'] else q['use']
+            return self._expect_module(target)
+        mod = q['module']
+        if mod.startswith('.'):
+            try:
+                pabs = importlib.util.resolve_name(mod, gen_tree.package_of(rel))
+            except ImportError:
+                return ('nothing', 'relative import beyond the top-level package')
+        else:
+            pabs = mod
+        par = self.walk(pabs)
+        if isinstance(par, Namespace):
+            return ('skip', 'namespace')
+        if isinstance(par, Absent):
+            return ('skip', 'loaded') if pabs in sys.modules else ('nothing', 'no module %r' % pabs)
+        if par.kind not in ('source', 'package'):
+            return ('skip', 'non-source parent')
+        sub = self._expect_module(pabs + '.' + q['name'])
+        tf = self._tree_file(par.origin)
+        if tf is None:
+            # a module outside the tree: its attributes are not modelled
+            return sub if sub[0] == 'file' else ('skip', 'attribute of a module outside the tree')
+        attrs = gen_tree.toplevel_names(self.tree['roots'][tf[0]][tf[1]])
+        if q['name'] in attrs:
+            if sub[0] == 'file':
+                return ('skip', 'attribute and sub-module of the same name')
+            return ('file', par.origin)
+        return sub
+
+    def _expect_module(self, name):
+        o = self.walk(name)
+        if isinstance(o, Namespace):
+            return ('skip', 'namespace')
+        if isinstance(o, Absent):
+            if name in sys.modules:
+                return ('skip', 'loaded')
+            # every prefix must be a source module too, otherwise supp would have to execute something
+            par = o.parent
+            if par is not None and par.kind not in ('source', 'package'):
+                return ('skip', 'non-source parent')
+            return ('nothing', 'no module %r' % name)
+        if o.kind not in ('source', 'package'):
+            return ('skip', 'non-source module')
+        return ('file', o.origin)
+
+    def other_level_files(self, q, root, rel):
+        """files the same statement would lead to if its relative level were another one"""
+        out = {}
+        if q['kind'] != 'from' or not q['module'].startswith('.'):
+            return out
+        mod = q['module']
+        level = len(mod) - len(mod.lstrip('.'))
+        for other in range(1, 7):
+            if other == level:
+                continue
+            q2 = dict(q, module='.' * other + mod.lstrip('.'))
+            e = self.expected_use(q2, root, rel)
+            if e[0] == 'file':
+                out[os.path.realpath(e[1])] = other
+        return out
+
+    def check_use(self, q, root, rel):
+        from supp.assistant import assist, location
+        p = self.p
+        client = os.path.join(self.dirs[root], *rel.split('/'))
+        stmt = gen_tree.statement_of(q)
+        use = q['use']
+        query = {'type': 'use', 'q': q, 'file': [root, rel]}
+        exp = self.expected_use(q, root, rel)
+        if exp[0] == 'skip':
+            p.count('filtered:use-of-imported-name:' + exp[1])
+            return
+        if exp[0] == 'file' and same_file(exp[1], client):
+            p.count('filtered:use-of-imported-name:the importing file itself')
+            return
+        level = len(q['module']) - len(q['module'].lstrip('.')) if q['kind'] == 'from' else 0
+        p.hist('use_form', q['form'] + (':level-%d' % level if level else ''))
+        p.hist('use_expected', exp[0] + (':beyond-top-level' if exp[0] == 'nothing' and 'beyond' in exp[1] else ''))
+        others = None
+        base = 'imported-name-use:%s:' + q['form'] + ':'
+        where = '%r then %r in %s [__package__=%r]' % (stmt, use, self.show(client), gen_tree.package_of(rel))
+        want = self.show(exp[1]) if exp[0] == 'file' else 'nothing (%s)' % exp[1]
+
+        # (1) go to definition on the use
+        try:
+            locs = location(self.project, stmt + '\n' + use, (2, len(use)), client)
+        except Exception as e:
+            p.count('filtered:use-of-imported-name:location raised %s (C08)' % type(e).__name__)
+            locs = None
+        if locs is not None:
+            flat = []
+            for l in locs:
+                flat += l if isinstance(l, list) else [l]
+            targets = [l.get('file') for l in flat if isinstance(l, dict) and not same_file(l.get('file'), client)]
+            got = targets[-1] if targets else None
+            p.count('use_locations_compared')
+            if exp[0] == 'file':
+                if got is not None and same_file(got, exp[1]):
+                    p.count('agree:use-location-in-resolved-file')
+                else:
+                    others = self.other_level_files(q, root, rel)
+                    if got is None:
+                        sym = 'nothing-where-importlib-loads'
+                    else:
+                        sym = 'wrong-file'
+                        if os.path.realpath(got) in others:
+                            sym += ':resolved-at-another-relative-level'
+                    self.violation(base % 'location' + sym, 'location() of %s leads to %s, importlib: %s' % (
+                        where, self.show(got), want), query)
+            else:
+                if got is None:
+                    p.count('agree:use-location-empty-where-importlib-raises')
+                else:
+                    others = self.other_level_files(q, root, rel)
+                    sym = 'found-where-importlib-raises'
+                    if os.path.realpath(got) in others:
+                        sym += ':resolved-at-another-relative-level'
+                    self.violation(base % 'location' + sym, 'location() of %s leads to %s, importlib: %s' % (
+                        where, self.show(got), want), query)
+
+        # (2) attributes of the bound name
+        try:
+            _, attrs = assist(self.project, stmt + '\n' + use + '.', (2, len(use) + 1), client)
+            attrs = set(attrs)
+        except Exception as e:
+            p.count('filtered:use-of-imported-name:assist raised %s (C08)' % type(e).__name__)
+            return
+        marks = self._markers()
+        mine = None
+        if exp[0] == 'file':
+            tf = self._tree_file(exp[1])
+            mine = marks.get(tf) if tf else None
+        if exp[0] == 'file' and tf is None:
+            # a module outside the tree may itself import tree decoys (bisect.py: 'from _bisect import *'):
+            # its attribute list says nothing about which file was resolved
+            p.count('filtered:use-of-imported-name:attributes of a module outside the tree')
+            return
+        foreign = sorted(m for k, m in marks.items() if m != mine and m in attrs)
+        p.count('use_attribute_sets_compared')
+        if foreign:
+            if others is None:
+                others = self.other_level_files(q, root, rel)
+            src = [k for k, m in marks.items() if m == foreign[0]][0]
+            srcfile = os.path.realpath(os.path.join(self.dirs[src[0]], *src[1].split('/')))
+            sym = 'attributes-of-another-file' if exp[0] == 'file' else 'attributes-where-importlib-raises'
+            if srcfile in others:
+                sym += ':resolved-at-another-relative-level'
+            self.violation(base % 'assist' + sym, "assist on %s.: proposes %s, defined in <r%d>/%s; importlib: %s" % (
+                where, foreign[0], src[0], src[1], want), query)
+        elif exp[0] == 'file' and mine is not None and same_file(exp[1], os.path.join(self.dirs[tf[0]], *tf[1].split('/'))) \
+                and gen_tree.dotted_of(tf[1])[0] == self._use_module(q, root, rel) and mine not in attrs:
+            self.violation(base % 'assist' + 'attributes-of-resolved-module-missing',
+                           'assist on %s.: %s of %s is not proposed' % (where, mine, want), query)
+        else:
+            p.count('agree:use-attributes' if exp[0] == 'file' and mine else 'agree:use-attributes-no-foreign-marker')
+
+    def _use_module(self, q, root, rel):
+        """dotted name of the MODULE the bound name stands for (None when it stands for an attribute)"""
+        if q['kind'] == 'import':
+            return q['module'] if q['alias'] else q['use']
+        mod = q['module']
+        try:
+            pabs = importlib.util.resolve_name(mod, gen_tree.package_of(rel)) if mod.startswith('.') else mod
+        except ImportError:
+            return None
+        return pabs + '.' + q['name']
+
     # -- proposals ----------------------------------------------------------------------
     def check_assist(self, form, pkgspec, root=None, rel=None, prefix=''):
         """form: 'import' -> 'import X.'   'from' -> 'from X.'   'from-import' -> 'from X import '
@@ -743,6 +941,7 @@ class TreeMon(object):
             self.selfcheck([n for _, n in names])
         # relative specifiers from every file importlib would load under this order
         rel_queries = []
+        clients = []
         for root in range(len(tree['roots'])):
             for rel in sorted(tree['roots'][root]):
                 if not rel.endswith('.py'):
@@ -757,6 +956,7 @@ class TreeMon(object):
                     self.p.count('filtered:relative-from-shadowed-file(no __package__ under this order)')
                     continue
                 self.p.count('files_with_relative_queries')
+                clients.append((root, rel))
                 specs = gen_tree.relative_specs(rng, tree, root, rel)
                 for spec in specs:
                     self.check_rel(spec, root, rel)
@@ -768,6 +968,13 @@ class TreeMon(object):
                     self.check_assist(form, spec, root, rel)
         # the same relative obligations again as query HISTORIES, each on one long-lived Project
         self.check_rel_histories(rel_queries, rng)
+        # uses of names bound by import statements, from a few importing files (deepest first)
+        clients.sort(key=lambda c: (-c[1].count('/'), c))
+        picked = clients[:2] + (rng.sample(clients[2:], min(1, len(clients[2:]))) if len(clients) > 2 else [])
+        for root, rel in picked:
+            self.p.count('files_with_use_queries')
+            for q in gen_tree.use_queries(rng, tree, root, rel, env.get('use_limits', (14, 8, 8, 6))):
+                self.check_use(q, root, rel)
         # proposals for absolute packages
         pk = sorted(n for n in fb)
         extra = ['', 'zq_absent', 'json', 'email.mime', 'os', 'xml.dom'] + [c for c in env['compiled'][:2]]
@@ -920,6 +1127,11 @@ def main(run):
                           'dotted tail / absent tail; norm_package vs resolve_name, then get_nmodule vs the walk; the same obligations '
                           'again as 8 query histories per (tree, order), each on ONE long-lived Project (deepest / shallowest / '
                           'shuffled files first with levels ascending and descending, all queries shuffled, highest level first)',
+        'uses_of_imported_names': "from up to 3 importing files per (tree, order), deepest first: 'from <dots> import sub' (levels 1..depth+2), "
+                                  "'from <dots>pkg import sub', 'import a.b.c [as w]', 'from a.b import c as d', each followed by a use of the bound "
+                                  "name: location() on 'name' must end in the file importlib resolves (or nowhere when importlib raises), assist on "
+                                  "'name.' must propose that file's marker name and no other tree file's; candidate names exist at several levels "
+                                  'of the importing file ancestry (level decoys)',
         'proposals': "assist on 'import X.', 'from X.', 'from X import ' for every package and module of the tree, absent and "
                      'stdlib names, the top level, and relative packages; also after sourceless .pyc modules and real extension '
                      'modules placed in a root (both sides must say: not a package)',
@@ -935,7 +1147,9 @@ def main(run):
                  'relative_history_answers_compared', 'proposal_sets_after_non_source_module',
                  'trees_with_non_source_module_shadowing_a_package_of_another_root',
                  'layouts_with_bare_directory_BEFORE_the_regular_package_or_module',
-                 'layouts_with_bare_directory_AFTER_the_regular_package_or_module'),
+                 'layouts_with_bare_directory_AFTER_the_regular_package_or_module',
+                 'use_locations_compared', 'use_attribute_sets_compared', 'agree:use-location-in-resolved-file',
+                 'agree:use-location-empty-where-importlib-raises', 'agree:use-attributes'),
         assumptions=[
             'oracle = importlib.machinery.PathFinder.find_spec walked per component over roots + sys.path of the worker '
             'process, importlib.util.resolve_name, pkgutil.iter_modules (CPython %d.%d); meta-path finders other than '
@@ -992,6 +1206,8 @@ def replay(run, path):
                     mon.violation('norm-package-depends-on-history:replayed',
                                   'step %d of the recorded history: norm_package(%r, <r%d>/%s) gives %r, resolve_name gives %r' % (
                                       idx, hist[idx][0], hist[idx][1], hist[idx][2], got, want), q)
+            elif q['type'] == 'use':
+                mon.check_use(q['q'], q['file'][0], q['file'][1])
             elif q['type'] == 'assist':
                 f = q.get('file') or [None, None]
                 mon.check_assist(q['form'], q['pkg'], f[0], f[1], q.get('prefix', ''))
